@@ -22,6 +22,11 @@ register("C13", "TLA+ (PlusCal) model of the task/result queue protocol checked 
          "Trusted: TLC, the PlusCal translation, the logging queue.Queue subclass substituted in the harness process (test double), CPython's queue/threading. Process back-end is observed only through outcomes. Bounded: task/worker counts as stated in the evidence.",
          "DESIGN.md section 4 C13")
 
+register("C12", "TLA+ crash/restart model of the history backup checked by TLC (every crash point, both backup modes, repeated crashes); BackupTrace.tla validates recorded scenario traces and predicts the file at every discipline execution; children killed in exactly those executions and restarted",
+         "Exhaustive model checking of the backup protocol (store -> listeners -> export, crash only while a discipline executes, restart from the file) for bounded runs, plus conformance: traces of real MDO/DOE scenarios are validated by the trace specification, which also predicts the backup file content at every discipline execution; a child process is killed inside that execution and the real HDF5 file must load and equal the prediction (names and values); the restarted child is traced and validated again (no rework, loaded entries kept, same history and optimum when replay is exact), including a second crash on a file that already holds earlier data.",
+         "Trusted: TLC, h5py durability of completed writes, os._exit as the crash model (inside Discipline._run only). Restart uses load=True and reset_iteration_counters=False. An existing file with neither load nor erase is outside the documented usage and not exercised. eachIter exactness is at the option's granularity (DESIGN.md C12 note).",
+         "DESIGN.md section 4 C12")
+
 ALL = [f"C{i:02d}" for i in range(1, 21)]
 
 
